@@ -8,7 +8,21 @@ use std::sync::OnceLock;
 static CORPUS: OnceLock<Vec<CorpusFile>> = OnceLock::new();
 
 pub fn corpus() -> &'static [CorpusFile] {
-    CORPUS.get_or_init(|| corpus::load(&corpus::corpus_dir()).expect("corpus must load (run setup)"))
+    CORPUS.get_or_init(|| {
+        if cfg!(miri) {
+            // reading and checking 750 files is too slow under the interpreter: a tiny built-in corpus
+            let docs: [(&str, &str, bool); 6] = [
+                ("valid/mini-1.toml", "a = 1\nb = \"x\\u00e9\"\n[t]\nc = [1, 2.5, 1979-05-27T07:32:00Z]\n", true),
+                ("valid/mini-2.toml", "[[p]]\nn = 'l'\n[p.q]\nr.s = {u = true}\n[[p]]\n", true),
+                ("valid/mini-3.toml", "s = \"\"\"\na\\\n   b\"\"\"\nt = \'\'\'x\'\'\'\n# c\n", true),
+                ("invalid/mini-1.toml", "a = 1\na = 2\n", false),
+                ("invalid/mini-2.toml", "a = [1, 2\n", false),
+                ("invalid/mini-3.toml", "[a]\n[a]\n", false),
+            ];
+            return docs.iter().map(|(n, t, v)| CorpusFile { name: n.to_string(), bytes: t.as_bytes().to_vec(), valid: *v, expected: None }).collect();
+        }
+        corpus::load(&corpus::corpus_dir()).expect("corpus must load (run setup)")
+    })
 }
 
 pub fn rendered(rng: &mut Rng) -> GenDoc {
